@@ -109,14 +109,15 @@ class Roles:
                     r = v.root(a)
                     if r.kind == "arg" and r.base[1] == slice_args[0] and not r.path:
                         cands.append((bi, t, cb))
-            if len(cands) != 1:
+            if not cands or len(set(id(c[2]) for c in cands)) != 1:
                 raise RoleLost("reader constructor: callee of sample receiving the x_space_point slice (found %d)" % len(cands))
             bi, t, cb = cands[0]
+            n_ctor_calls = len(cands)
             retty = s.local_ty(t["dest"]["l"])
             tt = self.f.ty(retty)
             if not tt or tt.get("k") != "adt":
                 raise RoleLost("reader type is not an ADT: %s" % retty)
-            return {"adt": tt["path"], "ctor": cb, "ctor_bb": bi, "slice_arg": slice_args[0], "local": t["dest"]["l"]}
+            return {"adt": tt["path"], "ctor": cb, "ctor_bb": bi, "slice_arg": slice_args[0], "local": t["dest"]["l"], "ctor_calls": n_ctor_calls}
         return self._memoize("reader_adt", go)
 
     def read_fn(self):
